@@ -113,12 +113,16 @@ Fixpoint number_opts (pfx : str) (n : N) (l : list str) : list (str * N) :=
 
 Definition unspecified : str := b "UNSPECIFIED".
 
+(* enum.go isExplicitZero (fix a65e1f2): the first option spells the zero value - UNSPECIFIED or
+   <PREFIX>UNSPECIFIED - exactly when the name addValue gives it is <PREFIX>UNSPECIFIED *)
+Definition explicit_zero (pfx o : str) : bool := str_eqb (value_name pfx o) (pfx ++ unspecified).
+
 (* visitEnumNode *)
 Definition cv_enum (name : str) (e : enum) : denum :=
   let pfx := enum_prefix name (e_prefix e) in
   match e_opts e with
   | o :: r =>
-      if has_suffix unspecified o
+      if explicit_zero pfx o
       then mkDenum name ((value_name pfx o, 0) :: number_opts pfx 1 r)
       else mkDenum name ((pfx ++ unspecified, 0) :: number_opts pfx 1 (o :: r))
   | [] => mkDenum name [(pfx ++ unspecified, 0)]
@@ -420,8 +424,10 @@ Fixpoint cv_files (exports : str -> option (list typeref)) (fs : list bfile) : o
   match fs with
   | [] => Ok []
   | BJ f :: r =>
-      obind (cv_file exports f) (fun a =>
-      obind (cv_files exports r) (fun c => Ok (a ++ c)))
+      if file_lists_ok f then
+        obind (cv_file exports f) (fun a =>
+        obind (cv_files exports r) (fun c => Ok (a ++ c)))
+      else Err "list method: the response must have exactly one array of objects"
   | BP _ :: r => cv_files exports r
   end.
 
